@@ -668,7 +668,7 @@ pub fn main(tier: Tier) -> i32 {
     for (b, r) in bs.iter().zip(rs.iter()) {
         if r.accepted {
             if let Some((k, w)) = &r.vio {
-                machinery_failure(&format!("base case breaks the reference: {} {}", k, w));
+                run.violation(k, w, json!({"engine": "c05", "case": b}));
             }
             ok_bases.push(b.clone());
         } else {
@@ -676,7 +676,7 @@ pub fn main(tier: Tier) -> i32 {
         }
     }
     if ok_bases.len() * 10 < bs.len() * 9 {
-        machinery_failure(&format!("only {} of {} base cases were accepted (the grid would be vacuous); e.g. {:?}", ok_bases.len(), bs.len(), refused_bases.iter().take(5).collect::<Vec<_>>()));
+        run.vacuous(&format!("only {} of {} base cases were accepted; e.g. {:?}", ok_bases.len(), bs.len(), refused_bases.iter().take(5).collect::<Vec<_>>()));
     }
     let d = tier.pick(1, 2);
     let mut cases = vec![];
